@@ -163,6 +163,16 @@ SPECIAL = [
                                {"type": "error", "name": "other.Denied", "fields": [{"name": "code", "type": "int"}]},
                                {"type": "record", "name": "Fine", "fields": [{"name": "v", "type": "long"}]}]},
         {"name": "again", "type": ["null", "Oops", "other.Denied"]}]}),
+    ("enum-type-default-vs-field-default", {"type": "record", "name": "Paint", "fields": [
+        {"name": "id", "type": "int"},
+        {"name": "c1", "type": {"type": "enum", "name": "Colour", "symbols": ["RED", "GREEN", "BLUE", "UNKNOWN"], "default": "UNKNOWN"}, "default": "BLUE"},
+        {"name": "c2", "type": "Colour", "default": "GREEN"}, {"name": "c3", "type": ["Colour", "null"], "default": "RED"},
+        {"name": "cs", "type": {"type": "array", "items": "Colour"}, "default": ["BLUE", "RED"]}]}),
+    ("suffix-full-names-in-union", {"type": "record", "name": "Parcel", "namespace": "shop", "fields": [
+        {"name": "u", "type": ["null", {"type": "record", "name": "Address", "namespace": "shop.geo", "fields": [{"name": "street", "type": "string", "default": "none"}]},
+                               {"type": "record", "name": "Address", "namespace": "geo", "fields": [{"name": "city", "type": "string", "default": "nowhere"}]},
+                               {"type": "enum", "name": "x.y.Kind", "symbols": ["A"]}, {"type": "enum", "name": "y.Kind", "symbols": ["B", "A"]}]},
+        {"name": "v", "type": ["geo.Address", "shop.geo.Address", "null"]}]}),
     ("deep-map-values", {"type": "map", "values": {"type": "record", "name": "Person", "fields": [
         {"name": "name", "type": "string"},
         {"name": "contact", "type": {"type": "record", "name": "Contact", "fields": [{"name": "email", "type": "string"}, {"name": "phone", "type": ["null", "string", {"type": "array", "items": "int"}]}]}}]}}),
@@ -204,6 +214,11 @@ def special_data(label, node, defs):
     if label == "error-branches":
         return [{"u": ("rpc.Oops", {"msg": "m"}), "again": None}, {"u": ("other.Denied", {"code": 7}), "again": ("rpc.Oops", {"msg": "x"})},
                 {"u": ("rpc.Fine", {"v": 1}), "again": ("other.Denied", {"code": -1})}, {"u": "s", "again": None}, {"u": None, "again": None}]
+    if label == "enum-type-default-vs-field-default":
+        return [{"id": 1, "c1": "RED", "c2": "RED", "c3": None, "cs": []}, {"id": 2, "c1": "UNKNOWN", "c2": "BLUE", "c3": "GREEN", "cs": ["UNKNOWN"]}]
+    if label == "suffix-full-names-in-union":
+        return [{"u": ("geo.Address", {"city": "c"}), "v": ("shop.geo.Address", {"street": "s"})}, {"u": ("shop.geo.Address", {"street": "s"}), "v": ("geo.Address", {"city": "c"})},
+                {"u": ("y.Kind", "A"), "v": None}, {"u": ("x.y.Kind", "A"), "v": ("geo.Address", {"city": ""})}, {"u": None, "v": ("geo.Address", {})}]
     if label == "deep-map-values":
         return [{"a": {"name": "n", "contact": {"email": "e", "phone": "555"}}}, {"a": {"name": "n", "contact": {"email": "e", "phone": None}}, "b": {"name": "m", "contact": {"email": "f", "phone": [1, 2]}}},
                 {"x": {"name": "", "contact": {"email": "", "phone": "1"}}, "y": {"name": "q", "contact": {"email": "r", "phone": "2"}}, "z": {"name": "s", "contact": {"email": "t", "phone": None}}}, {}]
@@ -265,7 +280,12 @@ def check_list(fa, res, raw, parsed, node, defs, recs, union_type, seen, label="
         if isinstance(e, (RecursionError, IndexError)) and "recursive" in traits:
             tag = "recursive-schema"
         elif "Internal Parser Exception" in str(e) and "record-without-fields" in traits:
-            tag = "record-without-fields"
+            try:
+                at_end = any(ends_with_empty_record(node, defs, v, conform.Indices(idx)) for v, idx in plans)
+            except Exception:
+                at_end = False
+            # the recorded finding: a datum whose last written value is a field-less record; anything else is new
+            tag = "record-without-fields" if at_end else "record-without-fields-elsewhere"
         res.add(Violation("c15.write", f"json-write-raised:{type(e).__name__}:{tag}", f"json_writer raised {type(e).__name__}: {e} | {short(info, 500)}", info))
         return
     text = fo.getvalue()
@@ -318,6 +338,32 @@ def _tag(label, recs, e):
     if not recs:
         return "empty-record-list"
     return label.split(":")[0] if label else "general"
+
+
+def ends_with_empty_record(node, defs, v, indices):
+    """Is the LAST thing written for this value a record without fields?  (Writing such a record calls no encoder method; the
+    recorded finding is exactly this shape at the end of a top-level datum.)  Walks the whole value in encoding order so
+    that the union choices are consumed in step."""
+    n = names.deref(node, defs)
+    k = n["k"]
+    if k == "record":
+        if not n["fields"]:
+            return True
+        last = False
+        for f in n["fields"]:
+            last = ends_with_empty_record(f["type"], defs, v[f["name"]], indices)
+        return last
+    if k == "union":
+        return ends_with_empty_record(n["branches"][indices.next()], defs, v, indices)
+    if k == "array":
+        for x in v:
+            ends_with_empty_record(n["items"], defs, x, indices)
+        return False  # the array's end is written after its last item
+    if k == "map":
+        for x in v.values():
+            ends_with_empty_record(n["values"], defs, x, indices)
+        return False
+    return False
 
 
 def schema_traits(node, defs):
